@@ -8,9 +8,9 @@ import PPLV.Props.C06BB
 solved from scratch by the modelled `is_lp_satisfiable()` / `second_phase()`, the entering column chosen by ANY
 rule `fc` returning candidates) satisfies `BB.OracleOK`.
 `solve_mip_end_to_end`: hence `solveTop` over it returns the true MIP answer.
-Not covered: termination (both fuels), zero-dimensional nodes (`modelOracle` answers `none`), and the fact that the
-real `solve_mip` re-solves children INCREMENTALLY (the model of that path is tied by replay; its proof is
-`lp_incremental_correct_partial`).
+Not covered: termination (both fuels), zero-dimensional nodes (`modelOracle` answers `none`).  The real `solve_mip`
+re-solves children INCREMENTALLY: that variant is `modelOracleIncr` / `solve_mip_end_to_end_incremental` in
+`PPLV/Props/C06TabOracleIncr.lean`.
 -/
 namespace C06
 open PPLV.Lin PPLV.Solver PPLV.Solver.BB PPLV.Solver.Pend
